@@ -1,6 +1,8 @@
 package harness
 
 import (
+	"net"
+	"strconv"
 	"bytes"
 	"fmt"
 	"io"
@@ -31,25 +33,36 @@ type c35Req struct {
 	Parse   bool       `json:"handler_parses"`
 	Chunked bool       `json:"chunked"`
 	AbortAt int        `json:"abort_at_pct"`
+	LimitDelta int     `json:"parse_limit_minus_body_len,omitempty"` // handler parses with MultipartFormWithLimit(len(body)+delta); 0: no limit
+	Epilogue int       `json:"epilogue_bytes,omitempty"`           // bytes after the closing boundary (inside the body)
+	Hijack  bool       `json:"handler_hijacks,omitempty"`
 }
 
 type c35Plan struct {
 	Stream   bool       `json:"stream_request_body"`
 	NoPre    bool       `json:"disable_preparse"`
+	KeepHijacked bool   `json:"keep_hijacked_conns,omitempty"`
 	Conns    [][]c35Req `json:"conns"`
 }
 
 func init() { scenarios["C35"] = scenC35 }
 
 func scenC35(e *Env) func() {
-	p := &c35Plan{Stream: e.Chance(70), NoPre: e.Chance(40)}
+	p := &c35Plan{Stream: e.Chance(70), NoPre: e.Chance(40), KeepHijacked: e.Chance(30)}
 	nconn := e.Range(1, 3)
 	for ci := 0; ci < nconn; ci++ {
 		var rs []c35Req
 		n := e.Range(2, 5)
 		for i := 0; i < n; i++ {
-			r := c35Req{ID: fmt.Sprintf("%d-%d", ci, i), Kind: Pick(e, "upload", "upload", "upload", "get", "abort", "timeout-upload"), Parse: e.Chance(80), Chunked: e.Chance(25)}
-			if r.Kind != "get" {
+			r := c35Req{ID: fmt.Sprintf("%d-%d", ci, i), Kind: Pick(e, "upload", "upload", "upload", "upload", "get", "post", "abort", "timeout-upload"), Parse: e.Chance(80), Chunked: e.Chance(25)}
+			if r.Kind == "upload" {
+				if e.Chance(25) {
+					r.LimitDelta = Pick(e, -1, -1, -2, -40, 1, 1000)
+					r.Epilogue = Pick(e, 0, 0, 2, 30)
+				}
+				r.Hijack = e.Chance(12)
+			}
+			if r.Kind != "get" && r.Kind != "post" {
 				nf := e.Range(0, 2)
 				for j := 0; j < nf; j++ {
 					r.Fields = append(r.Fields, [2]string{fmt.Sprintf("field%d", j), fmt.Sprintf("value-%s-%d %s", r.ID, j, Pick(e, "", "with spaces", "üñí", "a=b&c"))})
@@ -85,6 +98,9 @@ func c35Body(r *c35Req) (body []byte, ctype string) {
 		fw.Write(bodyPat("c35"+f.Name, f.Size))
 	}
 	w.Close()
+	if r.Epilogue > 0 {
+		b.WriteString("\r\n" + strings.Repeat("e", r.Epilogue))
+	}
 	return b.Bytes(), w.FormDataContentType()
 }
 
@@ -120,7 +136,7 @@ func c35Run(e *Env, p *c35Plan) {
 			byID[p.Conns[ci][i].ID] = &p.Conns[ci][i]
 		}
 	}
-	s := &fasthttp.Server{StreamRequestBody: p.Stream, DisablePreParseMultipartForm: p.NoPre, MaxRequestBodySize: 64 << 20, IdleTimeout: time.Minute, ReadTimeout: 2 * time.Minute}
+	s := &fasthttp.Server{StreamRequestBody: p.Stream, DisablePreParseMultipartForm: p.NoPre, MaxRequestBodySize: 64 << 20, IdleTimeout: time.Minute, ReadTimeout: 2 * time.Minute, KeepHijackedConns: p.KeepHijacked}
 	k := NewServerKit(e, s)
 	k.SkipBody = true
 	var mu sync.Mutex
@@ -136,7 +152,8 @@ func c35Run(e *Env, p *c35Plan) {
 				return
 			}
 		}
-		if r == nil || r.Kind == "get" {
+		if r == nil || r.Kind == "get" || r.Kind == "post" {
+			ctx.Request.Body()
 			ctx.SetBodyString("ok")
 			return
 		}
@@ -144,7 +161,24 @@ func c35Run(e *Env, p *c35Plan) {
 			ctx.SetBodyString("unparsed")
 			return
 		}
-		f, err := ctx.MultipartForm()
+		var f *multipart.Form
+		var err error
+		if lim, _ := strconv.Atoi(string(ctx.QueryArgs().Peek("limit"))); lim > 0 {
+			f, err = ctx.MultipartFormWithLimit(lim)
+			e.Probe("parse-with-limit")
+		} else {
+			f, err = ctx.MultipartForm()
+		}
+		if r.Hijack {
+			// the connection is taken over after the upload was parsed: its temporary
+			// files still belong to the request and go when the connection does
+			ctx.Hijack(func(c net.Conn) {
+				c.Write([]byte("HIJACKED"))
+				if p.KeepHijacked {
+					c.Close()
+				}
+			})
+		}
 		if err != nil {
 			ctx.SetBodyString("parse-error")
 			return
@@ -189,6 +223,31 @@ func c35Run(e *Env, p *c35Plan) {
 			fh.Close()
 			if !bytes.Equal(got, bodyPat("c35"+sf.Name, sf.Size)) {
 				e.Violation("form-file-content", "request %s: file %s has %d bytes (sent %d), first difference at %d", id, sf.Name, len(got), sf.Size, firstDiff(got, bodyPat("c35"+sf.Name, sf.Size)))
+				return
+			}
+		}
+		// the request body of a parsed form is the form written back: it parses to the same form
+		if rb := ctx.Request.Body(); true {
+			e.Ob(1)
+			f3, err := multipart.NewReader(bytes.NewReader(rb), string(ctx.Request.Header.MultipartFormBoundary())).ReadForm(1 << 30)
+			if err != nil {
+				e.Violation("body-of-form", "request %s: Request.Body() of a parsed multipart request (%d bytes) does not parse as the form: %v", id, len(rb), err)
+				return
+			}
+			for _, kv := range r.Fields {
+				if v := f3.Value[kv[0]]; len(v) != 1 || v[0] != kv[1] {
+					f3.RemoveAll()
+					e.Violation("body-of-form", "request %s: Request.Body() of a parsed multipart request lost field %s (%q)", id, kv[0], v)
+					return
+				}
+			}
+			n3 := 0
+			for _, fhs := range f3.File {
+				n3 += len(fhs)
+			}
+			f3.RemoveAll()
+			if n3 != len(r.Files) {
+				e.Violation("body-of-form", "request %s: Request.Body() of a parsed multipart request holds %d files, %d were sent", id, n3, len(r.Files))
 				return
 			}
 		}
@@ -253,10 +312,16 @@ func c35Run(e *Env, p *c35Plan) {
 			}
 			if r.Kind == "get" {
 				sc.Send([]byte(fmt.Sprintf("GET /u?id=%s HTTP/1.1\r\nHost: x\r\n\r\n", r.ID)), nil)
+			} else if r.Kind == "post" {
+				sc.Send([]byte(fmt.Sprintf("POST /u?id=%s HTTP/1.1\r\nHost: x\r\nContent-Type: text/plain\r\nContent-Length: 12\r\n\r\nordinarybody", r.ID)), nil)
 			} else {
 				body, ctype := c35Body(r)
 				var req bytes.Buffer
-				fmt.Fprintf(&req, "POST /u?id=%s HTTP/1.1\r\nHost: x\r\nContent-Type: %s\r\n", r.ID, ctype)
+				lim := ""
+				if r.LimitDelta != 0 && len(body)+r.LimitDelta > 0 {
+					lim = fmt.Sprintf("&limit=%d", len(body)+r.LimitDelta)
+				}
+				fmt.Fprintf(&req, "POST /u?id=%s%s HTTP/1.1\r\nHost: x\r\nContent-Type: %s\r\n", r.ID, lim, ctype)
 				if r.Chunked {
 					req.WriteString("Transfer-Encoding: chunked\r\n\r\n")
 					for off := 0; off < len(body); off += 5000 {
@@ -299,6 +364,14 @@ func c35Run(e *Env, p *c35Plan) {
 			e.Nontrivial = true
 			if r.Kind == "timeout-upload" && resp.Status == 408 {
 				timedOut = true // excepted by the property
+			}
+			if r.Hijack {
+				// the server is done with this connection once the hijack handler returned
+				time.Sleep(2 * time.Second)
+				sc.C.Close()
+				sc = nil
+				time.Sleep(3 * time.Second)
+				continue
 			}
 			if resp.Close {
 				// wait until the server has really closed the connection: the
